@@ -102,20 +102,31 @@ def run(ctx):
             if use_lookupdb:
                 qs = [s for s in qs if len(s) <= 12] or ['CAF']
             hist.append(qs)
-        reqs = [('api_brute_cross_lev', [k, refs, qs]) for qs in hist]
+        # LookupDB takes max_edits and the distance mode per lookup: they vary inside one history (an index or cache keyed by the
+        # query alone would answer with the radius of an earlier call)
+        steps = [(rng.choice([1, 2]), rng.random() < 0.25) if use_lookupdb else (k, False) for _ in hist]
+        if use_lookupdb and len(hist) >= 2 and rng.random() < 0.7:
+            j = rng.randrange(1, len(hist))
+            hist[j] = list(hist[j - 1])                      # same queries again ...
+            steps[j] = (3 - steps[j - 1][0], steps[j - 1][1])  # ... at the other radius
+        reqs = [('api_brute_cross_ham' if hm else 'api_brute_cross_lev', [kk, refs, qs]) for qs, (kk, hm) in zip(hist, steps)]
         outs = ctx.oracle.run(reqs)
         for step, (qs, exp) in enumerate(zip(hist, outs)):
-            g = call_impl(lambda: db.lookup(qs, max_edits=k) if use_lookupdb else db.lookup(qs))
-            fresh = call_impl(lambda: nn.LookupDB(refs).lookup(qs, max_edits=k) if use_lookupdb
+            kk, hm = steps[step]
+            kw = dict(custom_distance='hamming') if hm else {}
+            g = call_impl(lambda: db.lookup(qs, max_edits=kk, **kw) if use_lookupdb else db.lookup(qs))
+            fresh = call_impl(lambda: nn.LookupDB(refs).lookup(qs, max_edits=kk, **kw) if use_lookupdb
                               else nn.symdel(refs, max_edits=k, seqs2=qs))
-            ctx.case(sample=dict(history_step=step, refs=refs[:6], queries=qs[:6], k=k) if step == 1 and t < 3 else None,
+            ctx.count('history_lookup_k=%d%s' % (kk, '_hamming' if hm else ''))
+            ctx.case(sample=dict(history_step=step, refs=refs[:6], queries=qs[:6], k=kk, hamming=hm) if step == 1 and t < 3 else None,
                      nontrivial_key=('hist', t, step) if exp else None)
             ok = g[0] == 'ok' and canon_triplets(g[1]) == canon_model(exp)
             okf = fresh[0] == 'ok' and g[0] == 'ok' and canon_triplets(fresh[1]) == canon_triplets(g[1])
             if not ok or not okf:
-                ctx.violation('property', 'lookup %d of a history on one %s differs from %s' %
-                              (step, 'LookupDB' if use_lookupdb else 'SymdelDB', 'the model' if not ok else 'a fresh one-shot search'),
-                              dict(refs=refs, history=hist[:step + 1], k=k, got=str(g)[:400]),
+                ctx.violation('property', 'lookup %d (max_edits=%d%s) of a history on one %s differs from %s' %
+                              (step, kk, ', hamming' if hm else '', 'LookupDB' if use_lookupdb else 'SymdelDB',
+                               'the model' if not ok else 'a fresh one-shot search'),
+                              dict(refs=refs, history=hist[:step + 1], steps=steps[:step + 1], k=k, got=str(g)[:400]),
                               site='nn.LookupDB.lookup' if use_lookupdb else 'nn.SymdelDB.lookup')
                 break
     ctx.assumptions += ['rapidfuzz distances', 'references of LookupDB are over the amino-acid alphabet (documented domain)']
